@@ -3,7 +3,7 @@ from .. import gen, oracle
 from ..fcheck import FCheck
 from ..oracle import Finding
 
-ALIASES = ["dot-slash", "dotdot", "own-dir-dot", "symlink", "hardlink", "T-self-dir", "hardlink-in-destdir", "symlink-in-destdir", "abs-vs-rel",
+ALIASES = ["same-name-link-to-source", "dot-slash", "dotdot", "own-dir-dot", "symlink", "hardlink", "T-self-dir", "hardlink-in-destdir", "symlink-in-destdir", "abs-vs-rel",
            "special-dot-slash", "special-own-dir", "special-hardlink", "symlink-source-dot-slash"]
 
 
@@ -37,7 +37,16 @@ class C03(FCheck):
         alias = None
         if idx % 2 == 0:
             alias = ALIASES[(idx // 2) % len(ALIASES)]
-            if alias == "dot-slash":
+            if alias == "same-name-link-to-source":
+                # two sources of one name, the first a symbolic link to the second: once the link exists in the destination, the
+                # copy of the second source would be written through it into that very source
+                ops += [gen.d_op("x"), gen.d_op("y"), gen.d_op("dst")]
+                ops.append(gen.f_op("y/conf", max(1, gen.boundary_size(r, bs, cap=cap)), pat=r.randrange(1, 1 << 30), mode=0o640))
+                ops.append(gen.l_op("x/conf", r.choice(["$ROOT/y/conf", "../y/conf"]) if False else "$ROOT/y/conf"))
+                srcs, dest = r.choice([["x/conf", "y/conf"], ["x/conf", "f", "y/conf"]]), "dst"
+                driver = "parblock" if (idx // (2 * len(ALIASES))) % 2 == 0 else "parfile"
+                workers = max(workers, 2)
+            elif alias == "dot-slash":
                 srcs, dest = ["f"], "./f"
             elif alias == "dotdot":
                 srcs, dest = ["f"], "aux/../f"
@@ -108,8 +117,32 @@ class C03(FCheck):
     def evaluate_fault(self, res, verdict, case, t0, plan, base):
         return self._tag(super().evaluate_fault(res, verdict, case, t0, plan, base), case)
 
+    EXTRA_SCHED = {"quick": 16, "thorough": 48}
+
+    def items(self, tier, seed):
+        for it in super().items(tier, seed):
+            it["extra_sched"] = self.EXTRA_SCHED[tier]
+            yield it
+
     def run_item(self, sim, item):
+        import random
+        from ..campaign import run_step, summarize
         rec = super().run_item(sim, item)
+        case = item["case"]
+        # the fault and kill runs all follow the baseline's schedule up to the fault; identity checks that race with the thread that
+        # publishes what they look up need other schedules: alias cases are re-run fault-free under more plans, all with user-space
+        # preemption and long holds (DESIGN 2.7)
+        if case.get("alias") and item.get("extra_sched") and not item.get("only"):
+            r = random.Random(item["pick_seed"] ^ 0xc03)
+            for j in range(item["extra_sched"]):
+                sp = gen.sched_plan(r, ustep=1.0)
+                sp["ustep_budget"] = 200
+                if "ustep_hold" in sp:
+                    sp["ustep_hold"] = r.choice([8, 40, 400])
+                plan = {"seed": r.randrange(1 << 48), "sched": sp}
+                res, verdict, t0 = run_step(sim, case, 0, plan, self.log)
+                f = self.evaluate(res, verdict, case, 0, t0, plan)
+                rec["runs"].append(summarize(res, f, plan, {"nontrivial": True, "probes": {"extra-stepping-schedules": 1}}))
         if item["case"].get("alias") and rec["runs"]:
             rec["runs"][0]["nontrivial"] = True
             rec["probes"] = {"alias:" + item["case"]["alias"]: 1}
